@@ -170,3 +170,15 @@ check("C09", "PVM",
       level_text="Footprint bookkeeping is recomputed from the containers after every host call and the threshold formula is checked on an exhaustive boundary grid; held = agreement on what was explored.",
       note=HC_NOTE, shards=(8, 16), floors={"any": {"footprint_mutations_ok": 3000, "footprint_FULL": 100, "footprint_info_checked": 100, "threshold_points": 2000}},
       exhaustive="threshold grid (11 item counts x 46 octet counts x 8-10 offsets)")
+
+check("C10", "PVM",
+      rule="case = one generated accumulate-entry service program (1..25 host calls drawn from write, transfer, new, solicit, forget, yield, solicit+provide, bless/assign/designate, checkpoint with arguments in the data section; ending: halt with output length {0,1,31,32,33}, trap, invalid dynamic jump) run through Psi_A on a generated context, twice: with ample gas (ends as designed) and with a random limit below the gas the first run used (out of gas inside). "
+           "The global accumulate omega table is wrapped: the logical projection of X is serialised after every call and at every checkpoint; the Psi_A result (accounts, privileges, queues, validator keys, transfers, yield/return hash, provided blobs, raw storage pool) must equal the latest X (halt; a 32-byte output overrides the yield) or the snapshot at the most recent checkpoint / the initial context (panic, out of gas). distinct_nontrivial = distinct programs",
+      technique="snapshot-at-checkpoint monitor at the omega-table boundary compared with the invocation result",
+      level_text="Byte-level snapshots taken at checkpoint time are compared with what the invocation finally returns, for every ending kind; held = exact agreement on what was explored.",
+      note=HC_NOTE, shards=(8, 16),
+      floors={"any": {"ending_trap": 100, "ending_bad-jump": 100, "ending_halt_out32": 100, "ending_halt_out0": 50, "ending_halt_out33": 50, "ending_out_of_gas": 1000, "oog_after_checkpoint": 300, "programs_with_checkpoint_and_mutation": 500}})
+
+check("C33", "PVM",
+      rule="TBD", technique="reference-model monitor (model of machine/pages/poke/invoke/peek/expunge with refpvm as the inner engine) over call sequences, crash capture, outer-memory canaries",
+      level_text="TBD", note="TBD", shards=(8, 16))
